@@ -25,6 +25,15 @@ CHECKS = {
    text="Status() of every instance at every quiescent point of every explored execution: IsLeader <=> State==LEADER, leader's LeaderID/Token/Revision equal own id / term token / revision of its latest acknowledged write, documented states only, STOPPED after a returned stop, is-leader gauge equals IsLeader(), transition stream forms a chain."),
  "C19": dict(cat="exploration", tech=EXPL, ref="DESIGN §5 C19", note=NOTE,
    text="A promotion callback that blocks on its context records when it is cancelled; at every quiescent point of every explored execution (every cause of term end the scenarios reach): context done <=> the term has ended (instance not leader or token changed)."),
+ "C15": dict(cat="exploration", tech="exhaustive enumeration of an error-term grammar (all leaves x all wrapper nestings to depth 3) plus live error values from an embedded nats-server through the real adapter", ref="DESIGN §5 C15",
+   note="Finite alphabet: 12 package sentinels, context errors, the library's error types, nats.go exported/API errors, a word alphabet containing every pattern of error.go in both cases; 5 wrappers nested to depth 3. Byte strings outside the alphabet are not decided.",
+   text="For every term: never both classes, nil neither, every non-nil exactly one; for every term with exactly one classified leaf under neutral wrappers the class the statement fixes (context/TimeoutError/nats timeout, no-responders, closed => transient; config, permission, bucket, NATS conflict errors => permanent), including values captured live (stale Update, Create on live key, request time-out with the server down, closed connection)."),
+ "C16": dict(cat="exploration", tech="exhaustive enumeration of the configuration lattice against a reference predicate written from the statement", ref="DESIGN §5 C16",
+   note="Lattice: every duration at, 1ns below and above each threshold, 0, negative, 1 year; ints around 0; strings empty/non-empty; full product (3.7e5 configurations). Values between lattice points are not decided.",
+   text="NewElection succeeds iff the statement's predicate holds; a rejection is a *ValidationError naming an offending field, and the provider is not contacted (call-counting provider)."),
+ "C17": dict(cat="exploration", tech="exhaustive enumeration (backoff lattice, all retry outcome/cancellation sequences and breaker sequences in virtual-time bubbles against reference models) + deviation-bounded exploration of election scenarios for the acquisition rounds", ref="DESIGN §5 C17",
+   note="Backoff lattice restricted to Jitter in [0,1], Multiplier>=1, MaxBackoff<=100y; retry sequences <=5, breaker sequences of length 6; rounds observed in 2-3 instance scenarios with <= d deviations. The random source is owned through the overlay shim.",
+   text="CalculateBackoff within the jitter band and non-negative for all lattice points and attempts up to MaxInt; RetryWithBackoff's invocation instants and result equal the reference timeline for every outcome sequence, MaxAttempts, breaker and cancellation point; CircuitBreaker equals the reference FSM on every sequence; every acquisition round in every explored execution waits exactly 10ms+r*90ms, makes <=4 attempts, and waits the computed backoff."),
 }
 NA_DEFAULT = "check not built yet in this round (planned in DESIGN.md §9a); not claimed until it runs alarm-free"
 
